@@ -249,6 +249,8 @@ def run_config(ctx, rep, cfg):
             else:
                 rep.ok("C09.R2", cons, f.loc(i), "%s of %s bytes at offset %s stays inside the %d-byte destination under the dominating guards" % (base.split(".")[-1], lf_str(n), lf_str(offl), cap), cfg=cn)
     # guarded partial reads of the key loaders
+    from .c10 import loader_functions
+    loaders = loader_functions(prog, an, pubs)
     nguard = 0
     for f in sorted(prog.defined(), key=lambda x: x.key):
         s = an.summaries[f.key]
@@ -272,8 +274,8 @@ def run_config(ctx, rep, cfg):
             sizes = [j for j, p in enumerate(f.params) if p["type"] in ("i32", "i64") and j == k + 1]
             if not sizes or not any(True for _ in f.loops()):
                 continue
-            if not f.name.startswith(("skinny128_set_tk", "skinny64_set_tk")):
-                continue
+            if f.key not in loaders or k not in loaders[f.key]:
+                continue        # only the tweakey loaders reached from the key-setting entry points
             nguard += 1
             szt = ("a", sizes[0])
             facts = facts_at(fa, f, i)
@@ -380,7 +382,7 @@ def run(ctx, rep):
         if cfg is None:
             rep.floor("C09.R1", "fixed-extent functions", nfix, 13)
             rep.floor("C09.R2", "variable-length copies", ncopy, 18)
-            rep.floor("C09.R2", "guarded partial key reads", nguard, 6)
+            rep.floor("C09.R2", "guarded partial key reads", nguard, 2)
             rep.floor("C09.R4", "vector accesses through caller pointers", nvec, 8)
             rep.floor("C09.R7", "typed allocation sites", nal, 10)
         else:
